@@ -376,7 +376,12 @@ class StreamReal:
                 s.close(exc_info=ValueError("application error"))
             elif act == "write":
                 try:
-                    f = s.write(self._payload(args[0]))
+                    data = self._payload(args[0])
+                    f = s.write(data)
+                    if isinstance(data, memoryview):
+                        # write() has taken the data: the caller is free to release its own view
+                        # (`with memoryview(buf) as v: stream.write(v)`) while bytes are still queued
+                        data.release()
                     i = len(self.wfs)
                     f.add_done_callback(lambda f, i=i: self.order.append("w%d" % i))
                 except Exception as e:
@@ -424,9 +429,9 @@ class StreamReal:
 # the replay variants: transport granularity and payload types the contract must not depend on
 VARIANTS = [
     dict(rcs=2, thr=4, wkind="bytes", split=None),
-    dict(rcs=None, thr=None, wkind="mv", split=[1, 2]),
+    dict(rcs=None, thr=2, wkind="mv", split=[1, 2]),       # 3/5-byte writes are "large" pieces, sent 1-2 bytes at a time
     dict(rcs=1, thr=4, wkind="mvH", split=[2, 1, 3]),
-    dict(rcs=3, thr=2, wkind="mv", split=[1]),
+    dict(rcs=3, thr=None, wkind="mv", split=[1]),
 ]
 
 
